@@ -561,3 +561,81 @@ Lemma refuted_expected_reply_fragment :
   | _ => False
   end.
 Proof. vm_compute. repeat split; try reflexivity. do 3 right. left. reflexivity. Qed.
+
+(* ------------------------------------------------------------------------------------------ *)
+(* Bodies of 1024..2047 bytes: the frame CreateCommandData produces is REJECTED               *)
+(* ------------------------------------------------------------------------------------------ *)
+Lemma prop_fields_over ver enc x : ver < 2 -> enc < 2 -> x < 1024 ->
+  let a := prop_word ver enc (1024 + x) in
+  a < 65536 /\ N.land (N.shiftr a 14) 1 = ver /\ N.land (N.shiftr a 13) 1 = 0 /\ N.land a 1023 = x.
+Proof.
+  intros Hv He Hb.
+  assert (S : forallb (fun ver => forallb (fun enc => forallb (fun x =>
+    let a := prop_word ver enc (1024 + x) in
+    (a <? 65536) && (N.land (N.shiftr a 14) 1 =? ver) && (N.land (N.shiftr a 13) 1 =? 0) &&
+    (N.land a 1023 =? x))
+    (nrange 1024)) (nrange 2)) (nrange 2) = true) by (vm_compute; reflexivity).
+  pose proof (sweep 2 _ S ver Hv) as S1. cbv beta in S1.
+  pose proof (sweep 2 _ S1 enc He) as S2. cbv beta in S2.
+  pose proof (sweep 1024 _ S2 x Hb) as S3. cbv beta zeta in S3.
+  cbv zeta. lia.
+Qed.
+
+Lemma parse_encode_payload_over h rid ps body :
+  decoded_header h -> 1024 <= len body -> len body < 2048 ->
+  let p := encode_payload h rid ps body in
+  parse_payload (p ++ [xor_all p]) = Err E_BODY_LEN.
+Proof.
+  intros (Hv & He & Hid & Hb & Hl) L1 L2 p.
+  unfold parse_payload. rewrite xor_all_self. change (negb (0 =? 0)) with false. cbv iota.
+  set (id := if rid =? 0 then m_id h else rid).
+  set (x := len body - 1024).
+  assert (Hx : x < 1024) by (subst x; lia).
+  assert (Ex : len body = 1024 + x) by (subst x; lia).
+  destruct (prop_fields_over (m_ver h) (m_enc h) x Hv He Hx) as (A0 & A1 & A2 & A4).
+  cbv zeta in A0, A1, A2, A4. rewrite <- Ex in A0, A1, A2, A4.
+  set (attr := prop_word (m_ver h) (m_enc h) (len body)) in *.
+  assert (Ep : p ++ [xor_all p] =
+    ([id / 256 mod 256; id mod 256; attr / 256 mod 256; attr mod 256] ++
+     (if m_ver h =? 1 then [1] else []) ++ m_bcd h ++ [ps / 256 mod 256; ps mod 256]) ++ body ++ [xor_all p]).
+  { subst p. unfold encode_payload. fold id. fold attr. now rewrite <- !app_assoc. }
+  set (chk := xor_all p) in *. rewrite Ep. clear Ep.
+  set (pre := [id / 256 mod 256; id mod 256; attr / 256 mod 256; attr mod 256] ++
+     (if m_ver h =? 1 then [1] else []) ++ m_bcd h ++ [ps / 256 mod 256; ps mod 256]).
+  assert (Lpre : len pre = (if m_ver h =? 1 then 5 else 4) + (if m_ver h =? 1 then 10 else 6) + 2).
+  { subst pre. rewrite !len_app. unfold len at 3. rewrite Hl. destruct (m_ver h =? 1); reflexivity. }
+  assert (P2 : forall t, at_ (pre ++ t) 2 = attr / 256 mod 256) by reflexivity.
+  assert (P3 : forall t, at_ (pre ++ t) 3 = attr mod 256) by reflexivity.
+  rewrite P2, P3, be16_split by assumption.
+  rewrite A1, A2, A4. change (0 =? 1) with false. cbn [andb]. cbv iota.
+  assert (Ltot : len (pre ++ body ++ [chk]) = len pre + len body + 1).
+  { rewrite !len_app, len_cons, len_nil. lia. }
+  rewrite Ltot.
+  replace (len pre + len body + 1 <? 4) with false by lia.
+  rewrite <- Lpre.
+  replace (len pre + len body + 1 <? len pre) with false by lia.
+  replace (len pre + x + 1 =? len pre + len body + 1) with false by lia.
+  reflexivity.
+Qed.
+
+Theorem decode_encode_over h rid ps body :
+  decoded_header h -> (1024 <= length body < 2048)%nat ->
+  decode (encode h rid ps body) = Err E_BODY_LEN.
+Proof.
+  intros Hh [L1 L2]. rewrite decode_unfold. unfold encode.
+  rewrite unescape_escape by (destruct (encode_payload h rid ps body); discriminate).
+  cbn [bind]. apply parse_encode_payload_over; auto; unfold len; lia.
+Qed.
+
+(* CreateCommandData on any Terminal made by WithHeader (any version, phone of the domain, any number
+   of frames generated before, any command): a body of 1024..2047 bytes yields a frame the decoder
+   rejects with the body-length error *)
+Theorem body_1024_2047_rejected ver phone ps hst cmd body :
+  digits phone -> (length phone <= maxlen ver)%nat -> (1024 <= length body < 2048)%nat ->
+  decode (snd (create_command {| t_hdr := sim_hdr ver phone; t_pv := ver; t_ps := ps; t_h := hst |} cmd body))
+  = Err E_BODY_LEN.
+Proof.
+  intros Hd Hl Hb. unfold create_command. cbn [snd t_pv t_hdr t_ps].
+  rewrite encode_pv_eq by apply sim_hdr_pv.
+  apply decode_encode_over; auto using sim_hdr_decoded.
+Qed.
